@@ -36,7 +36,7 @@ class World:
             self.model = Model(mnames, host_fns=fns,
                                builtin_names=list(monitors.M.orig_functions) if monitors.M.installed else None)
 
-    def eval_and_judge(self, ctx, op, step, budget=10 ** 6, check_names=True, rec=None, names=None, mnames=None):
+    def eval_and_judge(self, ctx, op, step, budget=60000, check_names=True, rec=None, names=None, mnames=None):
         """Run one eval op on the real system and the model; compare. Returns (judged, rout, mout)."""
         src = op.get('src')
         if src is None:
